@@ -56,8 +56,60 @@ def check_scores(ctx, ver, strings, label, slots=("base", "temporal", "environme
 
 def replay_scores(data):
     r = data.get("replay") or {}
+    if r.get("kind") == "cold":
+        from . import conc
+        return conc.replay_cold(r)
     ver, s = r["ver"], r["s"]
+    if r.get("repeat") or r.get("threads"):
+        # repeated / concurrent construction of one string: every result must equal the specification's
+        import threading
+        outs = []
+        sp = core.run_driver(["S\tscore\t%s\t%s" % (ver, enc(s))])[0]
+
+        def w():
+            for _ in range(200):
+                outs.append(core.impl_construct(ver, "s", s))
+        ths = [threading.Thread(target=w) for _ in range(r.get("threads", 1))]
+        import sys as _sys
+        old = _sys.getswitchinterval()
+        _sys.setswitchinterval(1e-6)
+        try:
+            for t in ths:
+                t.start()
+            for t in ths:
+                t.join()
+        finally:
+            _sys.setswitchinterval(old)
+        bad = [o for o in outs if o != sp]
+        return not bad, "CVSS%s(%r) constructed %d times (%d threads): %s" % (ver, s, len(outs), r.get("threads", 1),
+                                                                            ("%d results differ from the specification %r, e.g. %r" % (len(bad), sp, bad[0])) if bad else "all equal the specification")
     io_ = core.impl_construct(ver, "s", s)
     sp = core.run_driver(["S\tscore\t%s\t%s" % (ver, enc(s))])[0]
     ok = io_ == sp
     return ok, "CVSS%s(%r).scores(): implementation %r, specification %r" % (ver, s, io_, sp)
+
+
+def extra_probes(ctx, ver, strings, label):
+    """searches beyond one-construction-at-a-time: (a) the SAME string constructed again and again in one process,
+    (b) several threads constructing at once, (c) a fresh process whose first use of the package is concurrent.
+    Each result is compared with the first / single-threaded result, which check_scores has compared with the
+    specification."""
+    from . import conc
+    rng = ctx.rng
+    step = max(1, len(strings) // ctx.n(2500, 40000))
+    sample = strings[::step]
+    first = {}
+    for rnd in range(3):
+        for s in sample:
+            r = core.impl_construct(ver, "s", s)
+            ctx.count()
+            if first.setdefault(s, r) != r:
+                ctx.violation("v%s:score-changes-on-repeated-construction" % ver,
+                              "constructing the identical string again in the same process gives different scores",
+                              s, first[s], r, replay={"op": "scores", "ver": ver, "s": s, "repeat": rnd + 1})
+                return
+    small = sample[:: max(1, len(sample) // ctx.n(700, 6000))]
+    conc.warm_threads(ctx, small, lambda s: core.impl_construct(ver, "s", s), "v%s" % ver,
+                      replay_of=lambda s: {"op": "scores", "ver": ver, "s": s, "threads": 4})
+    ops = [["S", ver, s] for s in small[:: max(1, len(small) // 160)] if core.sendable(s)]
+    conc.cold_start(ctx, ops, "v%s" % ver, runs=ctx.n(3, 12))
